@@ -4,11 +4,11 @@
 use crate::backend::*;
 use crate::util::*;
 use glam::{Quat, Vec3};
-use kira::info::{Info, ListenerInfo};
+use kira::info::{Info, ListenerInfo, MockInfoBuilder};
 use kira::listener::ListenerHandle;
 use kira::sound::{Sound, SoundData};
 use kira::track::{SpatialTrackBuilder, SpatialTrackHandle, TrackBuilder, TrackHandle};
-use kira::{Decibels, Easing, Frame, Mapping, StartTime, Tween, Tweenable, Value};
+use kira::{Decibels, Easing, Frame, Mapping, Parameter, StartTime, Tween, Tweenable, Value};
 use std::f32::consts::FRAC_PI_8;
 use std::sync::{Arc, Mutex};
 use std::time::Duration;
@@ -335,9 +335,14 @@ fn emit_case(s: &mut Session, kind: &str, scn: &Scn, li: Option<&ListenerInfo>, 
 			let lp_t = v3(li.previous_position).lerp(v3(li.position), t);
 			let p_t = em.pp + (em.p - em.pp) * t;
 			let d = (lp_t - p_t).length();
-			if scn.dmin <= scn.dmax {
-				let dc = d.clamp(scn.dmin, scn.dmax);
-				let rd = (dc - scn.dmin) / (scn.dmax - scn.dmin);
+			let rd = if scn.dmax <= scn.dmin {
+				Some(if d >= scn.dmax { 1.0f32 } else { 0.0 })
+			} else if scn.dmin <= scn.dmax {
+				Some((d.clamp(scn.dmin, scn.dmax) - scn.dmin) / (scn.dmax - scn.dmin))
+			} else {
+				None
+			};
+			if let Some(rd) = rd {
 				let x = (1.0 - rd) as f64;
 				if !x.is_nan() {
 					easing_oracle(e, x, &mut tab64);
@@ -399,27 +404,49 @@ fn emit_case(s: &mut Session, kind: &str, scn: &Scn, li: Option<&ListenerInfo>, 
 	s.case(kind, term, &encode_outcome(&obs), if nontrivial { Some(key) } else { None });
 }
 
-/// F11 classes
-fn f11_class(scn: &Scn) -> Option<&'static str> {
-	if scn.easing.is_some() && scn.lmode == LMode::Present {
-		if scn.dmin > scn.dmax {
-			return Some("spatial_distances_min_gt_max");
-		}
-		if scn.dmin == scn.dmax {
-			return Some("spatial_distances_min_eq_max");
-		}
+/// What `Track::process` does to the emitter's parameters, replayed on kira's own public
+/// `Parameter` type (same `set` / `update` calls at the same points), so that the previous and
+/// current raw values of every chunk are known without a hook.
+struct EmMirror {
+	pos: Parameter<Vec3>,
+	strength: Parameter<f32>,
+	info: Info<'static>,
+}
+impl EmMirror {
+	fn new(scn: &Scn) -> Self {
+		EmMirror { pos: Parameter::new(Value::Fixed(scn.epos), Vec3::ZERO), strength: Parameter::new(Value::Fixed(scn.strength), 0.75), info: MockInfoBuilder::new().build() }
 	}
-	None
+	/// one callback of one chunk of `n` frames, with the ops issued before it
+	fn step(&mut self, scn: &Scn, k: usize, n: usize) -> Em {
+		for (at, op) in &scn.ops {
+			if *at == k {
+				match *op {
+					Op::EmitterPos(p, f) => self.pos.set(Value::Fixed(p), tween_frames(f)),
+					Op::Strength(x, f) => self.strength.set(Value::Fixed(x), tween_frames(f)),
+					_ => {}
+				}
+			}
+		}
+		let tp = self.pos.value();
+		let dt = 1.0 / SR as f64;
+		self.pos.update(dt * n as f64, &self.info);
+		self.strength.update(dt * n as f64, &self.info);
+		Em { pp: self.pos.previous_value(), p: self.pos.value(), ps: self.strength.previous_value(), s: self.strength.value(), tp }
+	}
 }
 
-/// Runs a static scenario for `callbacks` callbacks, checks the universal monitors (finite output,
-/// silence without a listener, listener data and distance seen by sounds) and emits every frame
-/// as a model case.  Returns the last callback's frames.
-fn run_static(s: &mut Session, kind: &str, scn: &Scn, callbacks: usize) -> Option<Vec<Frame>> {
+/// Runs a scenario for `callbacks` callbacks (one chunk each), checks the universal monitors
+/// (finite output, silence without a listener, listener data and distance seen by sounds, mapped
+/// volume) and, if `emit`, sends every frame to the model.  Returns the last callback's frames.
+fn run_check(s: &mut Session, kind: &str, scn: &Scn, callbacks: usize, emit: bool) -> Option<Vec<Frame>> {
 	let obs = run_scn(scn, callbacks);
-	let em = Em { pp: scn.epos, p: scn.epos, ps: scn.strength, s: scn.strength, tp: scn.epos };
+	let mut mirror = EmMirror::new(scn);
 	let mut last = None;
+	if !emit {
+		s.eval_only(kind);
+	}
 	for (k, cb) in obs.cbs.iter().enumerate() {
+		let em = mirror.step(scn, k, scn.buf);
 		let present = match scn.lmode {
 			LMode::Present => true,
 			LMode::Foreign => false,
@@ -432,14 +459,15 @@ fn run_static(s: &mut Session, kind: &str, scn: &Scn, callbacks: usize) -> Optio
 				s.fail(scn.describe(), format!("callback {k}: listener_info().is_some() = {} but the listener {}", p.li.is_some(), if present { "exists" } else { "does not exist" }), None);
 			}
 			if let Some(li) = p.li {
-				let want = v3(li.position).distance(scn.epos);
+				let want = v3(li.position).distance(em.tp);
 				if p.dist.map(obs32) != Some(obs32(want)) {
-					s.fail(scn.describe(), format!("callback {k}: listener_distance() = {:?}, distance of listener {:?} and emitter = {want:?}", p.dist, li.position), None);
+					s.fail(scn.describe(), format!("callback {k}: listener_distance() = {:?}, distance of listener {:?} and emitter {:?} = {want:?}", p.dist, li.position, em.tp), None);
 				}
-				let mut tp = vec![];
-				tp.extend_from_slice(&[scn.epos.x, scn.epos.y, scn.epos.z]);
-				s.case("listener_distance", format!("CDist {} {}", fl(&listener_list(&li)), fl(&tp)), &[1, p.dist.map(obs32).unwrap_or(-2)], Some(format!("d:{:?}:{:?}", li.position, scn.epos)));
-				if scn.ops.is_empty() && (v3(li.position).to_array().map(f32::to_bits) != scn.lpos.to_array().map(f32::to_bits)) {
+				if emit {
+					s.case("listener_distance", format!("CDist {} {}", fl(&listener_list(&li)), fl(&[em.tp.x, em.tp.y, em.tp.z])), &[1, p.dist.map(obs32).unwrap_or(-2)], Some(format!("d:{:?}:{:?}", li.position, em.tp)));
+				}
+				let no_listener_ops = !scn.ops.iter().any(|(_, o)| matches!(o, Op::ListenerPos(..) | Op::ListenerQuat(..)));
+				if no_listener_ops && (v3(li.position).to_array().map(f32::to_bits) != scn.lpos.to_array().map(f32::to_bits)) {
 					s.fail(scn.describe(), format!("callback {k}: listener position seen by the track is {:?}", li.position), None);
 				}
 			} else if p.dist.is_some() {
@@ -450,29 +478,53 @@ fn run_static(s: &mut Session, kind: &str, scn: &Scn, callbacks: usize) -> Optio
 		match cb {
 			Outcome::Ok(frames) => {
 				for (i, f) in frames.iter().enumerate() {
-					emit_case(s, kind, scn, li.as_ref(), &em, i, frames.len(), k == 0, &Outcome::Ok((f.left, f.right)));
+					if emit {
+						emit_case(s, kind, scn, li.as_ref(), &em, i, frames.len(), k == 0, &Outcome::Ok((f.left, f.right)));
+					}
 					if !present && (f.left.to_bits() != 0 || f.right.to_bits() != 0) {
 						s.fail(scn.describe(), format!("callback {k} frame {i}: output {f:?} although the listener does not exist"), None);
 					}
 					if !(f.left.is_finite() && f.right.is_finite()) {
-						let class = f11_class(scn);
-						if class == Some("spatial_distances_min_eq_max") || class.is_none() {
-							s.fail(scn.describe(), format!("callback {k} frame {i}: output {f:?} is not finite"), class);
+						s.fail(scn.describe(), format!("callback {k} frame {i}: output {f:?} is not finite"), None);
+					}
+				}
+				// a volume mapped from the listener distance follows that distance: with no attenuation
+				// curve and strength 0 the output is exactly input * map(distance).as_amplitude()
+				if let (Some(li), true, true) = (li, k >= 1, scn.ops.is_empty()) {
+					let one = match (scn.pre, scn.post) {
+						(Some(m), None) | (None, Some(m)) => Some(m),
+						_ => None,
+					};
+					if let (Some(m), None, true) = (one, scn.easing, scn.strength.clamp(0.0, 1.0) == 0.0) {
+						let amp = m.map(v3(li.position).distance(em.tp) as f64).as_amplitude();
+						let want = (0.0 + (0.0 + scn.input.0) * (amp * 1.0), 0.0 + (0.0 + scn.input.1) * (amp * 1.0));
+						for (i, f) in frames.iter().enumerate() {
+							if obs32(f.left) != obs32(want.0) || obs32(f.right) != obs32(want.1) {
+								s.fail(scn.describe(), format!("callback {k} frame {i}: output {f:?} but input * amplitude of the volume mapped from the listener distance = {want:?}"), None);
+							}
 						}
+						s.count("monitor_distance_mapped_volume");
 					}
 				}
 				last = Some(frames.clone());
 			}
 			Outcome::Panic(c) => {
-				emit_case(s, kind, scn, li.as_ref(), &em, 0, scn.buf, k == 0, &Outcome::Panic(*c));
-				let class = f11_class(scn);
-				s.fail(scn.describe(), format!("callback {k}: audio thread panicked: {}", last_panic()), if class == Some("spatial_distances_min_gt_max") { class } else { None });
+				if emit {
+					emit_case(s, kind, scn, li.as_ref(), &em, 0, scn.buf, k == 0, &Outcome::Panic(*c));
+				}
+				s.fail(scn.describe(), format!("callback {k}: audio thread panicked: {}", last_panic()), None);
 				last = None;
 			}
 			Outcome::Hang => {}
 		}
 	}
 	last
+}
+/// steady-state levels (second callback, frame 0, one-frame chunks)
+fn levels(s: &mut Session, kind: &str, scn: &Scn, emit: bool) -> Option<(f32, f32)> {
+	let mut c = scn.clone();
+	c.buf = 1;
+	run_check(s, kind, &c, 2, emit).map(|f| (f[0].left, f[0].right))
 }
 
 // ---------------------------------------------------------------- generators
@@ -535,7 +587,7 @@ fn gen_easing_opt(r: &mut Rng) -> Option<Easing> {
 	}
 }
 fn gen_distances(r: &mut Rng) -> (f32, f32) {
-	match r.below(8) {
+	match r.below(9) {
 		0 | 1 => (1.0, 100.0),
 		2 => (0.0, 1.0),
 		3 => (0.5, 2.0),
@@ -545,6 +597,7 @@ fn gen_distances(r: &mut Rng) -> (f32, f32) {
 			let a = (r.unit_f64() * 10.0) as f32;
 			(a, a + (r.unit_f64() * 50.0) as f32 + 0.01)
 		}
+		7 => *r.pick(&[(10.0f32, 1.0f32), (5.0, 5.0), (0.0, 0.0), (3.0, 2.0), (100.0, 0.0)]),
 		_ => (r.range(0, 4) as f32, r.range(5, 40) as f32),
 	}
 }
@@ -601,6 +654,239 @@ fn gen_scn(r: &mut Rng) -> Scn {
 	scn
 }
 
+// ---------------------------------------------------------------- monitors of the relational laws
+fn rot64(q: Quat, v: [f64; 3]) -> [f64; 3] {
+	let (x, y, z, w) = (q.x as f64, q.y as f64, q.z as f64, q.w as f64);
+	let n = (x * x + y * y + z * z + w * w).sqrt();
+	let (x, y, z, w) = (x / n, y / n, z / n, w / n);
+	// v + 2 w (b x v) + 2 b x (b x v)
+	let c1 = [y * v[2] - z * v[1], z * v[0] - x * v[2], x * v[1] - y * v[0]];
+	let c2 = [y * c1[2] - z * c1[1], z * c1[0] - x * c1[2], x * c1[1] - y * c1[0]];
+	[v[0] + 2.0 * (w * c1[0] + c2[0]), v[1] + 2.0 * (w * c1[1] + c2[1]), v[2] + 2.0 * (w * c1[2] + c2[2])]
+}
+fn qmul64(a: Quat, b: Quat) -> Quat {
+	let (ax, ay, az, aw) = (a.x as f64, a.y as f64, a.z as f64, a.w as f64);
+	let (bx, by, bz, bw) = (b.x as f64, b.y as f64, b.z as f64, b.w as f64);
+	let q = [aw * bx + ax * bw + ay * bz - az * by, aw * by - ax * bz + ay * bw + az * bx, aw * bz + ax * by - ay * bx + az * bw, aw * bw - ax * bx - ay * by - az * bz];
+	let n = (q[0] * q[0] + q[1] * q[1] + q[2] * q[2] + q[3] * q[3]).sqrt();
+	Quat::from_xyzw((q[0] / n) as f32, (q[1] / n) as f32, (q[2] / n) as f32, (q[3] / n) as f32)
+}
+fn d3(v: Vec3) -> [f64; 3] {
+	[v.x as f64, v.y as f64, v.z as f64]
+}
+fn f3(v: [f64; 3]) -> Vec3 {
+	Vec3::new(v[0] as f32, v[1] as f32, v[2] as f32)
+}
+fn dot64(a: [f64; 3], b: [f64; 3]) -> f64 {
+	a[0] * b[0] + a[1] * b[1] + a[2] * b[2]
+}
+fn sub64(a: [f64; 3], b: [f64; 3]) -> [f64; 3] {
+	[a[0] - b[0], a[1] - b[1], a[2] - b[2]]
+}
+fn norm64(a: [f64; 3]) -> f64 {
+	dot64(a, a).sqrt()
+}
+fn gen_unit_vec(r: &mut Rng) -> Vec3 {
+	match r.below(4) {
+		0 => *r.pick(&[Vec3::X, Vec3::NEG_X, Vec3::Y, Vec3::NEG_Y, Vec3::Z, Vec3::NEG_Z]),
+		_ => loop {
+			let v = Vec3::new(unit(r), unit(r), unit(r));
+			if v.length() > 0.1 && v.length() <= 1.0 {
+				break v.normalize();
+			}
+		},
+	}
+}
+fn gen_moderate_pos(r: &mut Rng) -> Vec3 {
+	match r.below(3) {
+		0 => Vec3::ZERO,
+		1 => Vec3::new(r.range(-64, 64) as f32 / 8.0, r.range(-64, 64) as f32 / 8.0, r.range(-64, 64) as f32 / 8.0),
+		_ => Vec3::new(unit(r) * 8.0, unit(r) * 8.0, unit(r) * 8.0),
+	}
+}
+
+/// attenuation: a function of the distance only, unity within min, zero from max on,
+/// non-increasing along a ray; strength 0 passes the stereo frame un-mixed
+fn monitor_attenuation(s: &mut Session, r: &mut Rng, emit_every: u64, idx: u64) {
+	let lp = gen_moderate_pos(r);
+	let lq = gen_quat(r);
+	let (dmin, dmax) = gen_distances(r);
+	let e = gen_easing_opt(r).unwrap_or(Easing::Linear);
+	let u = gen_unit_vec(r);
+	let (lo, hi) = if dmin < dmax { (dmin, dmax) } else { (dmax, dmin) };
+	let mut ds = vec![0.0f32, lo * 0.5, lo, lo * 1.000001, hi * 0.999999, hi, hi * 1.0001, hi * 2.0 + 1.0, hi * 1000.0 + 7.0];
+	for w in [0.1f32, 0.25, 0.5, 0.75, 0.9] {
+		ds.push(lo + (hi - lo) * w);
+	}
+	for _ in 0..3 {
+		ds.push(lo + (hi - lo) * r.unit_f64() as f32);
+	}
+	let mut base = Scn::base();
+	base.lpos = lp;
+	base.lq = lq;
+	base.dmin = dmin;
+	base.dmax = dmax;
+	base.easing = Some(e);
+	base.strength = *r.pick(&[0.0f32, 0.0, -0.0, -0.5]);
+	base.input = (0.5, 0.25);
+	base.nested = r.chance(1, 4);
+	let mut pts: Vec<(f32, f32, Vec3)> = vec![];
+	let mut seen: std::collections::HashMap<u32, (f32, Vec3)> = std::collections::HashMap::new();
+	for (j, d) in ds.iter().enumerate() {
+		for flip in [false, true] {
+			let mut scn = base.clone();
+			scn.epos = if flip { lp - u * *d } else { lp + u * *d };
+			if flip {
+				scn.lq = gen_quat(r);
+			}
+			let emit = emit_every > 0 && (idx + j as u64) % emit_every == 0 && !flip;
+			let Some(out) = levels(s, "monitor_attenuation", &scn, emit) else { continue };
+			let d_act = (lp - scn.epos).length();
+			let a = out.0 * 2.0;
+			if out.0.to_bits() != (out.1 * 2.0).to_bits() {
+				s.fail(scn.describe(), format!("strength 0: output {out:?} is not the input (0.5, 0.25) scaled by one factor"), None);
+			}
+			if !(0.0..=1.0).contains(&a) {
+				s.fail(scn.describe(), format!("attenuation factor {a:?} outside [0, 1] at distance {d_act:?}"), None);
+			}
+			if d_act <= dmin && d_act < dmax && a != 1.0 {
+				s.fail(scn.describe(), format!("distance {d_act:?} within the minimum distance but the attenuation factor is {a:?}"), None);
+			}
+			if d_act >= dmax && a != 0.0 {
+				s.fail(scn.describe(), format!("distance {d_act:?} at or beyond the maximum distance but the attenuation factor is {a:?}"), None);
+			}
+			if let Some((a0, p0)) = seen.get(&d_act.to_bits()) {
+				if a0.to_bits() != a.to_bits() {
+					s.fail(scn.describe(), format!("same distance {d_act:?} as emitter {p0:?} (other direction / listener orientation) but attenuation {a:?} instead of {a0:?}"), None);
+				}
+			} else {
+				seen.insert(d_act.to_bits(), (a, scn.epos));
+			}
+			pts.push((d_act, a, scn.epos));
+		}
+	}
+	pts.sort_by(|x, y| x.0.partial_cmp(&y.0).unwrap());
+	for w in pts.windows(2) {
+		if w[1].1 > w[0].1 {
+			let mut scn = base.clone();
+			scn.epos = w[1].2;
+			s.fail(scn.describe(), format!("attenuation increases with distance: {:?} at {:?} but {:?} at {:?} (emitter {:?})", w[0].1, w[0].0, w[1].1, w[1].0, w[0].2), None);
+		}
+	}
+}
+
+/// per-ear gains: range, side preference, mirror swap, rigid-motion invariance
+fn monitor_gains(s: &mut Session, r: &mut Rng, emit: bool) {
+	let lp = gen_moderate_pos(r);
+	let lq = gen_quat(r);
+	let mut scn = Scn::base();
+	scn.lpos = lp;
+	scn.lq = lq;
+	scn.epos = match r.below(4) {
+		0 => lp + lq * Vec3::new(unit(r) * 0.2, unit(r) * 0.2, unit(r) * 0.2),
+		1 => lp + Vec3::new(unit(r) * 12.0, unit(r) * 12.0, unit(r) * 12.0),
+		_ => gen_emitter(r, lp, lq),
+	};
+	scn.easing = None;
+	scn.strength = match r.below(4) {
+		0 => 1.0,
+		1 => gen_strength(r),
+		_ => r.unit_f64() as f32,
+	};
+	scn.input = (0.5, 0.5);
+	let sc = scn.strength.clamp(0.0, 1.0);
+	let Some(out) = levels(s, "monitor_gains", &scn, emit) else { return };
+	let (gl, gr) = (out.0 * 2.0, out.1 * 2.0);
+	let eps = 2.0e-6f32;
+	for (name, g) in [("left", gl), ("right", gr)] {
+		if !(g >= 1.0 - sc - eps && g <= 1.0 + eps) {
+			s.fail(scn.describe(), format!("{name} ear gain {g:?} outside [1 - strength, 1] = [{:?}, 1]", 1.0 - sc), None);
+		}
+	}
+	if sc == 0.0 {
+		if gl != 1.0 || gr != 1.0 {
+			s.fail(scn.describe(), format!("strength 0 but gains ({gl:?}, {gr:?})"), None);
+		}
+		return;
+	}
+	if !(scn.epos.is_finite() && scn.epos.abs().max_element() < 1.0e6) {
+		return;
+	}
+	// side preference
+	let rel = sub64(d3(scn.epos), d3(lp));
+	let n = rot64(lq, [1.0, 0.0, 0.0]);
+	let x = dot64(rel, n);
+	let margin = 1.0e-6 * (1.0 + norm64(d3(lp)) + norm64(rel));
+	let ear = EAR as f64;
+	let wrong_side = (x < 0.0 && gl < gr - eps) || (x > 0.0 && gr < gl - eps);
+	if wrong_side {
+		if x.abs() >= ear + margin {
+			s.fail(scn.describe(), format!("emitter at local x = {x:?} (beyond the ear plane) but gains (left {gl:?}, right {gr:?}) favour the other ear"), None);
+		} else if x.abs() < ear - margin {
+			s.fail(scn.describe(), format!("emitter inside the head at local x = {x:?}: gains (left {gl:?}, right {gr:?}) favour the other ear"), Some("spatial_side_preference_inside_head"));
+		}
+	}
+	s.count("monitor_side_preference");
+	// conditioning of the direction computation: coordinates / distance to the nearer ear
+	let ear_l = sub64(rel, [-ear * n[0], -ear * n[1], -ear * n[2]]);
+	let ear_r = sub64(rel, [ear * n[0], ear * n[1], ear * n[2]]);
+	let delta = norm64(ear_l).min(norm64(ear_r));
+	if delta < 1.0e-3 {
+		return;
+	}
+	let m = norm64(d3(lp)) + norm64(rel) + 1.0;
+	// mirror through the median plane
+	{
+		let pm = [d3(scn.epos)[0] - 2.0 * x * n[0], d3(scn.epos)[1] - 2.0 * x * n[1], d3(scn.epos)[2] - 2.0 * x * n[2]];
+		let mut sm = scn.clone();
+		sm.epos = f3(pm);
+		if let Some(o2) = levels(s, "monitor_mirror", &sm, false) {
+			let tol = (1.0e-5 * (1.0 + m / delta)) as f32;
+			let (ml, mr) = (o2.0 * 2.0, o2.1 * 2.0);
+			if (ml - gr).abs() > tol || (mr - gl).abs() > tol {
+				s.fail(scn.describe(), format!("mirrored emitter {:?}: gains ({ml:?}, {mr:?}) are not the swapped gains ({gr:?}, {gl:?}) within {tol:e}", sm.epos), None);
+			}
+		}
+	}
+	// rigid motion of listener and emitter together
+	{
+		let g = gen_quat(r);
+		let t = gen_moderate_pos(r);
+		let mv = |p: Vec3| {
+			let q = rot64(g, d3(p));
+			f3([q[0] + t.x as f64, q[1] + t.y as f64, q[2] + t.z as f64])
+		};
+		let mut sm = scn.clone();
+		sm.lpos = mv(lp);
+		sm.epos = mv(scn.epos);
+		sm.lq = qmul64(g, lq);
+		let m2 = m + norm64(d3(t));
+		if let Some(o2) = levels(s, "monitor_rigid_motion", &sm, false) {
+			let tol = (1.0e-5 * (1.0 + m2 / delta)) as f32;
+			let (ml, mr) = (o2.0 * 2.0, o2.1 * 2.0);
+			if (ml - gl).abs() > tol || (mr - gr).abs() > tol {
+				s.fail(scn.describe(), format!("after the rigid motion (rotation {:?}, translation {:?}) gains ({ml:?}, {mr:?}) differ from ({gl:?}, {gr:?}) by more than {tol:e}", g.to_array(), t.to_array()), None);
+			}
+		}
+		// ... and the attenuation (strength 0, wide linear range)
+		let mut a1 = scn.clone();
+		a1.strength = 0.0;
+		a1.easing = Some(*r.pick(&[Easing::Linear, Easing::InPowi(2), Easing::OutPowi(2)]));
+		a1.dmin = 0.0;
+		a1.dmax = 64.0;
+		let mut a2 = a1.clone();
+		a2.lpos = sm.lpos;
+		a2.epos = sm.epos;
+		a2.lq = sm.lq;
+		if let (Some(x1), Some(x2)) = (levels(s, "monitor_rigid_motion", &a1, false), levels(s, "monitor_rigid_motion", &a2, false)) {
+			let tol = (1.0e-5 * (1.0 + 30.0 * m2 / 64.0)) as f32;
+			if (x1.0 - x2.0).abs() > tol * x1.0.abs().max(1.0e-3) {
+				s.fail(scn.describe(), format!("after the rigid motion (rotation {:?}, translation {:?}) the attenuated level {:?} differs from {:?} by more than {tol:e} relative", g.to_array(), t.to_array(), x2.0, x1.0), None);
+			}
+		}
+	}
+}
+
 pub fn run(args: &Args) {
 	let mut rng = Rng::new(args.seed ^ 0xC15);
 	let n: u64 = (if args.thorough { 6000 } else { 600 }) * args.budget_mul;
@@ -614,27 +900,73 @@ pub fn run(args: &Args) {
 	);
 	s.keep_case_text = true;
 
-	// ---- F11 witnesses (the `_refuted` theorems of Props.v), replayed on the real code
+	// ---- regression corpus: F11 (repaired in /repo by af7861d): distances (10, 1) panicked in
+	// f32::clamp on the audio thread, (5, 5) produced NaN; a recurrence is a plain violation
 	{
 		let mut a = Scn::base();
 		a.dmin = 10.0;
 		a.dmax = 1.0;
-		run_static(&mut s, "f11_min_gt_max", &a, 2);
+		run_check(&mut s, "f11_min_gt_max", &a, 2, true);
 		let mut b = Scn::base();
 		b.dmin = 5.0;
 		b.dmax = 5.0;
-		run_static(&mut s, "f11_min_eq_max", &b, 2);
+		run_check(&mut s, "f11_min_eq_max", &b, 2, true);
 	}
 	// ---- random static scenarios
 	for _ in 0..n {
 		let scn = gen_scn(&mut rng);
-		run_static(&mut s, "static", &scn, 2);
+		run_check(&mut s, "static", &scn, 2, true);
 	}
 	// ---- listener never existed / dropped
 	for i in 0..n / 6 {
 		let mut scn = gen_scn(&mut rng);
 		scn.lmode = if i % 2 == 0 { LMode::Foreign } else { LMode::DropBefore(1 + rng.below(2) as usize) };
-		run_static(&mut s, "listener_absent", &scn, 3);
+		run_check(&mut s, "listener_absent", &scn, 3, true);
+	}
+	// ---- position / orientation / strength tweens in flight (chunks of 1, 2, 4 frames)
+	for _ in 0..n / 3 {
+		let mut scn = gen_scn(&mut rng);
+		scn.pre = None;
+		scn.post = None;
+		scn.buf = *rng.pick(&[1usize, 2, 4]);
+		if matches!(scn.easing, Some(Easing::InPowf(_)) | Some(Easing::OutPowf(_)) | Some(Easing::InOutPowf(_))) && rng.chance(1, 2) {
+			scn.easing = Some(Easing::Linear);
+		}
+		for _ in 0..rng.range(1, 3) {
+			let at = rng.range(1, 2) as usize;
+			let frames = *rng.pick(&[0u32, 1, 3, 8, 5]);
+			let op = match rng.below(4) {
+				0 => Op::ListenerPos(gen_pos(&mut rng), frames),
+				1 => Op::ListenerQuat(gen_quat(&mut rng), frames),
+				2 => {
+					let p = gen_emitter(&mut rng, scn.lpos, scn.lq);
+					Op::EmitterPos(p, frames)
+				}
+				_ => Op::Strength(gen_strength(&mut rng), frames),
+			};
+			scn.ops.push((at, op));
+		}
+		run_check(&mut s, "tween", &scn, 4, true);
+	}
+	// ---- F22 witness (side_preference_inside_head_refuted of Props.v), replayed on the real code
+	{
+		let mut w = Scn::base();
+		w.epos = Vec3::new(-0.098, 0.0, 0.000834);
+		w.strength = 1.0;
+		w.easing = None;
+		if let Some(out) = levels(&mut s, "f22_inside_head", &w, true) {
+			if out.0 < out.1 {
+				s.fail(w.describe(), format!("emitter inside the head, left of the centre: left level {:?} < right level {:?}", out.0, out.1), Some("spatial_side_preference_inside_head"));
+			}
+		}
+	}
+	// ---- relational laws on the implementation
+	let emit_every = if args.thorough { 40 } else { 25 };
+	for i in 0..n / 12 {
+		monitor_attenuation(&mut s, &mut rng, emit_every, i);
+	}
+	for i in 0..n * 2 {
+		monitor_gains(&mut s, &mut rng, i % 8 == 0);
 	}
 	s.finish();
 }
